@@ -437,6 +437,18 @@ fn run_all_inspections(
             None,
         )?;
 
+        // an inspection whose command does not succeed fails verification
+        if let MetadataWrapper::Link(link) = &metablock.metadata {
+            if link.byproducts.return_value() != Some(0) {
+                return Err(Error::VerificationFailure(format!(
+                    "inspection '{}' command {:?} returned non-zero value {:?}",
+                    inspect.name(),
+                    cmd_args,
+                    link.byproducts.return_value(),
+                )));
+            }
+        }
+
         // dump the metadata
         let filename = format!("{}.link", inspect.name());
         std::fs::write(filename, serde_json::to_string_pretty(&metablock)?)?;
